@@ -83,17 +83,22 @@ Qed.
 (* ------------------------------------------------------------------ traces *)
 
 Lemma started_snoc evs e :
-  started (evs ++ [e]) = started evs ++ match e with Start r => [r] | _ => [] end.
+  started (evs ++ [e]) = started evs ++ match e with Start r _ => [r] | _ => [] end.
 Proof. unfold started; rewrite flat_map_app; simpl; rewrite app_nil_r; reflexivity. Qed.
 
 Lemma entered_snoc n evs e :
   entered n (evs ++ [e]) =
   entered n evs ++ match e with
                    | Enter r => [r]
-                   | Start r => if n =? 0 then [r] else []
+                   | Start r _ => if n =? 0 then [r] else []
                    | _ => []
                    end.
 Proof. unfold entered; rewrite flat_map_app; simpl; rewrite app_nil_r; reflexivity. Qed.
+
+Lemma ended_snoc evs e :
+  ended_of (evs ++ [e]) =
+  ended_of evs ++ match e with Start r true => [r] | CtxEnd r => [r] | _ => [] end.
+Proof. unfold ended_of; rewrite flat_map_app; simpl; rewrite app_nil_r; reflexivity. Qed.
 
 Lemma left_snoc evs e :
   left_of (evs ++ [e]) = left_of evs ++ match e with Leave r _ => [r] | _ => [] end.
@@ -150,6 +155,9 @@ Record Inv (n : nat) (evs : list gate_event) (s : gate_state) : Prop := {
   i_nd_ent    : NoDup (entered n evs);
   i_bound     : 0 < n -> length (inflight s) <= n;
   i_disabled  : n = 0 -> waiting s = [];
+  i_ended     : forall r, In r (ended s) <-> In r (ended_of evs);
+  i_ended_sub : incl (ended_of evs) (started evs);
+  i_canc_end  : incl (cancelled_of evs) (ended_of evs);
 }.
 
 Lemma inv_init n : Inv n [] (gate_init n).
@@ -175,11 +183,15 @@ Proof.
   apply filter_In in H. destruct H as [He Hp]. apply negb_true_iff, memr_false in Hp. auto.
 Qed.
 
+Ltac snocs :=
+  unfold entered_not_left, started_not_entered_not_cancelled;
+  rewrite ?started_snoc, ?entered_snoc, ?left_snoc, ?cancelled_snoc, ?ended_snoc; simpl.
+
 Lemma inv_step n evs s e s' :
   Inv n evs s -> gate_step s e = Some s' -> Inv n (evs ++ [e]) s'.
 Proof.
   intros I H. pose proof (i_cap _ _ _ I) as Hcap.
-  destruct e as [r|r|r o|r]; simpl in H.
+  destruct e as [r b|r|r|r o|r]; simpl in H.
   - (* Start *)
     destruct (memr r (used s)) eqn:Hu; [discriminate|].
     apply memr_false in Hu. rewrite (i_used _ _ _ I) in Hu.
@@ -190,10 +202,7 @@ Proof.
     + (* disabled: straight in flight *)
       apply Nat.eqb_eq in Hc. assert (Hn : n = 0) by congruence.
       assert (Hn0 : (n =? 0) = true) by (apply Nat.eqb_eq; exact Hn).
-      constructor; simpl;
-        unfold entered_not_left, started_not_entered_not_cancelled;
-        rewrite ?started_snoc, ?entered_snoc, ?left_snoc, ?cancelled_snoc; simpl;
-        rewrite ?Hn0, ?app_nil_r.
+      constructor; simpl; snocs; rewrite ?Hn0, ?app_nil_r.
       * exact Hcap.
       * intros x; rewrite in_app_iff, <- (i_used _ _ _ I); simpl; intuition.
       * rewrite filter_app; simpl. apply memr_false in Hnl; rewrite Hnl; simpl.
@@ -213,13 +222,17 @@ Proof.
       * apply NoDup_snoc; [exact (i_nd_ent _ _ _ I)|exact Hne].
       * intros; lia.
       * intros _; apply (i_disabled _ _ _ I); exact Hn.
+      * intros x; destruct b; simpl; rewrite ?app_nil_r, ?in_app_iff; simpl;
+          rewrite <- (i_ended _ _ _ I x); intuition.
+      * destruct b; rewrite ?app_nil_r.
+        -- apply incl_app; [apply incl_appl, (i_ended_sub _ _ _ I)|].
+           intros x [->|[]]; rewrite in_app_iff; right; left; reflexivity.
+        -- apply incl_appl, (i_ended_sub _ _ _ I).
+      * apply incl_appl, (i_canc_end _ _ _ I).
     + (* enabled: waits at the select *)
       apply Nat.eqb_neq in Hc. assert (Hn : n <> 0) by congruence.
       assert (Hn0 : (n =? 0) = false) by (apply Nat.eqb_neq; exact Hn).
-      constructor; simpl;
-        unfold entered_not_left, started_not_entered_not_cancelled;
-        rewrite ?started_snoc, ?entered_snoc, ?left_snoc, ?cancelled_snoc; simpl;
-        rewrite ?Hn0, ?app_nil_r.
+      constructor; simpl; snocs; rewrite ?Hn0, ?app_nil_r.
       * exact Hcap.
       * intros x; rewrite in_app_iff, <- (i_used _ _ _ I); simpl; intuition.
       * exact (i_inflight _ _ _ I).
@@ -234,6 +247,32 @@ Proof.
       * exact (i_nd_ent _ _ _ I).
       * exact (i_bound _ _ _ I).
       * intros; lia.
+      * intros x; destruct b; simpl; rewrite ?app_nil_r, ?in_app_iff; simpl;
+          rewrite <- (i_ended _ _ _ I x); intuition.
+      * destruct b; rewrite ?app_nil_r.
+        -- apply incl_app; [apply incl_appl, (i_ended_sub _ _ _ I)|].
+           intros x [->|[]]; rewrite in_app_iff; right; left; reflexivity.
+        -- apply incl_appl, (i_ended_sub _ _ _ I).
+      * apply incl_appl, (i_canc_end _ _ _ I).
+  - (* CtxEnd: only [ended] changes *)
+    destruct (memr r (used s)) eqn:Hu; [|discriminate].
+    inversion H; subst s'; clear H. apply memr_In in Hu. rewrite (i_used _ _ _ I) in Hu.
+    constructor; simpl; snocs; rewrite ?app_nil_r.
+    + exact Hcap.
+    + exact (i_used _ _ _ I).
+    + exact (i_inflight _ _ _ I).
+    + exact (i_waiting _ _ _ I).
+    + exact (i_nd_start _ _ _ I).
+    + exact (i_ent_sub _ _ _ I).
+    + exact (i_left_sub _ _ _ I).
+    + exact (i_canc_sub _ _ _ I).
+    + exact (i_canc_ent _ _ _ I).
+    + exact (i_nd_ent _ _ _ I).
+    + exact (i_bound _ _ _ I).
+    + exact (i_disabled _ _ _ I).
+    + intros x; rewrite in_app_iff; simpl; rewrite <- (i_ended _ _ _ I x); intuition.
+    + apply incl_app; [exact (i_ended_sub _ _ _ I)|intros x [->|[]]; exact Hu].
+    + apply incl_appl, (i_canc_end _ _ _ I).
   - (* Enter *)
     destruct (memr r (waiting s)) eqn:Hw; [|discriminate].
     destruct (length (inflight s) <? cap s) eqn:Hlt; [|discriminate].
@@ -241,10 +280,7 @@ Proof.
     apply memr_In in Hw. apply Nat.ltb_lt in Hlt.
     destruct (waiting_not_entered _ _ _ _ I Hw) as [Hs [Hne Hnc]].
     assert (Hnl : ~ In r (left_of evs)) by (intros X; apply Hne, (i_left_sub _ _ _ I), X).
-    constructor; simpl;
-      unfold entered_not_left, started_not_entered_not_cancelled;
-      rewrite ?started_snoc, ?entered_snoc, ?left_snoc, ?cancelled_snoc; simpl;
-      rewrite ?app_nil_r.
+    constructor; simpl; snocs; rewrite ?app_nil_r.
     + exact Hcap.
     + exact (i_used _ _ _ I).
     + rewrite filter_app; simpl. apply memr_false in Hnl; rewrite Hnl; simpl.
@@ -262,14 +298,14 @@ Proof.
     + apply NoDup_snoc; [exact (i_nd_ent _ _ _ I)|exact Hne].
     + intros _; rewrite app_length; simpl; lia.
     + intros Hn; rewrite (i_disabled _ _ _ I Hn) in Hw; destruct Hw.
+    + exact (i_ended _ _ _ I).
+    + exact (i_ended_sub _ _ _ I).
+    + exact (i_canc_end _ _ _ I).
   - (* Leave *)
     destruct (memr r (inflight s)) eqn:Hi; [|discriminate].
     inversion H; subst s'; clear H. apply memr_In in Hi.
     destruct (inflight_entered _ _ _ _ I Hi) as [He Hnl].
-    constructor; simpl;
-      unfold entered_not_left, started_not_entered_not_cancelled;
-      rewrite ?started_snoc, ?entered_snoc, ?left_snoc, ?cancelled_snoc; simpl;
-      rewrite ?app_nil_r.
+    constructor; simpl; snocs; rewrite ?app_nil_r.
     + exact Hcap.
     + exact (i_used _ _ _ I).
     + rewrite filter_excl_snoc, (i_inflight _ _ _ I); reflexivity.
@@ -282,14 +318,16 @@ Proof.
     + exact (i_nd_ent _ _ _ I).
     + intros Hn; pose proof (i_bound _ _ _ I Hn); pose proof (del_length_le r (inflight s)); lia.
     + exact (i_disabled _ _ _ I).
+    + exact (i_ended _ _ _ I).
+    + exact (i_ended_sub _ _ _ I).
+    + exact (i_canc_end _ _ _ I).
   - (* Cancel *)
     destruct (memr r (waiting s)) eqn:Hw; [|discriminate].
-    inversion H; subst s'; clear H. apply memr_In in Hw.
+    destruct (memr r (ended s)) eqn:Hen; [|discriminate].
+    simpl in H; inversion H; subst s'; clear H. apply memr_In in Hw, Hen.
+    rewrite (i_ended _ _ _ I) in Hen.
     destruct (waiting_not_entered _ _ _ _ I Hw) as [Hs [Hne Hnc]].
-    constructor; simpl;
-      unfold entered_not_left, started_not_entered_not_cancelled;
-      rewrite ?started_snoc, ?entered_snoc, ?left_snoc, ?cancelled_snoc; simpl;
-      rewrite ?app_nil_r.
+    constructor; simpl; snocs; rewrite ?app_nil_r.
     + exact Hcap.
     + exact (i_used _ _ _ I).
     + exact (i_inflight _ _ _ I).
@@ -305,6 +343,9 @@ Proof.
     + exact (i_nd_ent _ _ _ I).
     + exact (i_bound _ _ _ I).
     + intros Hn; rewrite (i_disabled _ _ _ I Hn) in Hw; destruct Hw.
+    + exact (i_ended _ _ _ I).
+    + exact (i_ended_sub _ _ _ I).
+    + apply incl_app; [exact (i_canc_end _ _ _ I)|intros x [->|[]]; exact Hen].
 Qed.
 
 Theorem reach_inv n evs s : reach n evs = Some s -> Inv n evs s.
@@ -329,8 +370,8 @@ Proof. intros Hn H; exact (i_bound _ _ _ (reach_inv _ _ _ H) Hn). Qed.
 
 Lemma starts_accepted rs : forall s,
   NoDup rs -> (forall r, In r rs -> ~ In r (used s)) -> 0 < cap s ->
-  run (Some s) (map Start rs) =
-  Some (mk_gate (cap s) (inflight s) (waiting s ++ rs) (rev rs ++ used s)).
+  run (Some s) (map (fun r => Start r false) rs) =
+  Some (mk_gate (cap s) (inflight s) (waiting s ++ rs) (rev rs ++ used s) (ended s)).
 Proof.
   induction rs as [|r rs IH]; intros s Hnd Hfresh Hcap.
   - simpl; rewrite app_nil_r; destruct s; reflexivity.
@@ -338,7 +379,8 @@ Proof.
     unfold run; simpl.
     assert (Hu : memr r (used s) = false) by (apply memr_false, Hfresh; left; reflexivity).
     rewrite Hu. assert (Hc : (cap s =? 0) = false) by (apply Nat.eqb_neq; lia). rewrite Hc.
-    change (fold_left step_opt (map Start rs) ?x) with (run x (map Start rs)).
+    change (fold_left step_opt (map (fun r => Start r false) rs) ?x)
+      with (run x (map (fun r => Start r false) rs)).
     rewrite IH; simpl.
     + rewrite <- !app_assoc; reflexivity.
     + exact Hnd'.
@@ -348,7 +390,7 @@ Qed.
 
 Lemma enters_accepted rs : forall s,
   NoDup rs -> waiting s = rs -> length (inflight s) + length rs <= cap s ->
-  run (Some s) (map Enter rs) = Some (mk_gate (cap s) (inflight s ++ rs) [] (used s)).
+  run (Some s) (map Enter rs) = Some (mk_gate (cap s) (inflight s ++ rs) [] (used s) (ended s)).
 Proof.
   induction rs as [|r rs IH]; intros s Hnd Hw Hlen.
   - simpl; rewrite app_nil_r; destruct s; simpl in *; subst; reflexivity.
@@ -370,7 +412,7 @@ Qed.
 Lemma refill_accepted s rs :
   inflight s = [] -> waiting s = [] -> 0 < cap s ->
   NoDup rs -> (forall r, In r rs -> ~ In r (used s)) -> length rs <= cap s ->
-  run (Some s) (refill rs) = Some (mk_gate (cap s) rs [] (rev rs ++ used s)).
+  run (Some s) (refill rs) = Some (mk_gate (cap s) rs [] (rev rs ++ used s) (ended s)).
 Proof.
   intros Hi Hw Hc Hnd Hfresh Hlen. unfold refill.
   rewrite run_app, starts_accepted by assumption.
@@ -452,13 +494,122 @@ Proof.
   - intros X; apply (waiting_not_entered _ _ _ _ I) in X; tauto.
 Qed.
 
-(* the step itself: only a waiting render can be cancelled; the set in flight is untouched *)
+(* the step itself: only a waiting render whose context is over can be cancelled;
+   the set in flight is untouched *)
 Theorem gate_cancel_step s r s' :
   gate_step s (Cancel r) = Some s' ->
-  In r (waiting s) /\ inflight s' = inflight s /\ waiting s' = del r (waiting s).
+  In r (waiting s) /\ In r (ended s) /\ inflight s' = inflight s /\ waiting s' = del r (waiting s).
 Proof.
   simpl; destruct (memr r (waiting s)) eqn:E; [|discriminate].
-  intros H; inversion H; subst; simpl. apply memr_In in E; auto.
+  destruct (memr r (ended s)) eqn:E2; [|discriminate].
+  intros H; inversion H; subst; simpl. apply memr_In in E, E2; auto.
+Qed.
+
+(* ------------------------------------------------------------------ contexts that are over *)
+
+(* the context error is only ever given to a caller whose context is over *)
+Theorem gate_cancel_needs_ended n evs s r :
+  reach n evs = Some s -> In r (cancelled_of evs) -> In r (ended_of evs).
+Proof. intros H Hc; exact (i_canc_end _ _ _ (reach_inv _ _ _ H) r Hc). Qed.
+
+Lemma live_context_not_cancelled s r : ~ In r (ended s) -> gate_step s (Cancel r) = None.
+Proof. intros H; simpl; apply memr_false in H; rewrite H, andb_false_r; reflexivity. Qed.
+
+(* a waiting render whose context is over can always return its error (the
+   [<-ctx.Done()] case is ready whatever the gate looks like) and takes nothing with it *)
+Theorem gate_ended_waiter_returns n evs s r :
+  reach n evs = Some s -> In r (waiting s) -> In r (ended s) ->
+  exists s', gate_step s (Cancel r) = Some s' /\
+             inflight s' = inflight s /\ waiting s' = del r (waiting s) /\ cap s' = cap s.
+Proof.
+  intros _ Hw He. simpl. apply memr_In in Hw, He. rewrite Hw, He. simpl.
+  eexists; split; [reflexivity|]; simpl; auto.
+Qed.
+
+(* Render called with a context that is ALREADY over, limit enabled.  The call is
+   accepted and takes nothing yet.  From there the caller may get the error: then
+   the gate is exactly as before the call.  It may enter exactly when a slot is
+   free (select is free to choose) and is then in flight like any other render
+   (so [gate_every_exit_releases] applies to it).  At a full gate the error is
+   the only possibility, and there is no way out that skips the gate. *)
+Theorem gate_ended_start n evs s r :
+  0 < n -> reach n evs = Some s -> ~ In r (started evs) ->
+  exists s1, gate_step s (Start r true) = Some s1 /\
+    inflight s1 = inflight s /\ waiting s1 = waiting s ++ [r] /\ In r (ended s1) /\
+    (exists s2, gate_step s1 (Cancel r) = Some s2 /\
+                inflight s2 = inflight s /\ waiting s2 = waiting s /\ cap s2 = cap s) /\
+    (length (inflight s) < n ->
+       exists s2, gate_step s1 (Enter r) = Some s2 /\
+                  inflight s2 = inflight s ++ [r] /\ waiting s2 = waiting s) /\
+    (n <= length (inflight s) -> gate_step s1 (Enter r) = None) /\
+    (forall o, gate_step s1 (Leave r o) = None).
+Proof.
+  intros Hn H Hfresh. pose proof (reach_inv _ _ _ H) as I.
+  pose proof (i_cap _ _ _ I) as Hcap.
+  assert (Hu : memr r (used s) = false) by (apply memr_false; rewrite (i_used _ _ _ I); exact Hfresh).
+  assert (Hc : (cap s =? 0) = false) by (apply Nat.eqb_neq; lia).
+  assert (Hnw : ~ In r (waiting s)).
+  { intros X; apply (waiting_not_entered _ _ _ _ I) in X; tauto. }
+  assert (Hni : ~ In r (inflight s)).
+  { intros X; apply (inflight_entered _ _ _ _ I) in X. destruct X as [X _].
+    apply Hfresh, (i_ent_sub _ _ _ I), X. }
+  assert (Hdel : del r (waiting s ++ [r]) = waiting s).
+  { unfold del; rewrite filter_app; simpl; rewrite Nat.eqb_refl; simpl; rewrite app_nil_r.
+    apply del_notin; exact Hnw. }
+  assert (Hmw : memr r (waiting s ++ [r]) = true) by (rewrite memr_snoc, Nat.eqb_refl, orb_true_r; reflexivity).
+  eexists; split; [simpl; rewrite Hu, Hc; reflexivity|]; simpl.
+  split; [reflexivity|]. split; [reflexivity|]. split; [left; reflexivity|].
+  rewrite Hmw. unfold memr at 1; simpl; rewrite Nat.eqb_refl; simpl.
+  split; [eexists; split; [reflexivity|]; simpl; rewrite Hdel; auto|].
+  split.
+  - intros Hlt. assert (E : (length (inflight s) <? cap s) = true) by (apply Nat.ltb_lt; lia).
+    rewrite E. eexists; split; [reflexivity|]; simpl; rewrite Hdel; auto.
+  - split.
+    + intros Hge. assert (E : (length (inflight s) <? cap s) = false) by (apply Nat.ltb_ge; lia).
+      rewrite E; reflexivity.
+    + intros _. apply memr_false in Hni; rewrite Hni; reflexivity.
+Qed.
+
+(* The context of a waiting render [rw] ends while a render in flight [ri] hands
+   its slot back.  Both are accepted in either order and commute; afterwards
+   [rw] may return the error - then the slot of [ri] is free - or take that slot
+   and be in flight.  These are the only two ways on for [rw]; in both the
+   slots in use are exactly the renders in flight. *)
+Theorem gate_cancel_release_race n evs s rw ri o :
+  reach n evs = Some s -> In rw (waiting s) -> In ri (inflight s) ->
+  exists s1, run (Some s) [CtxEnd rw; Leave ri o] = Some s1 /\
+             run (Some s) [Leave ri o; CtxEnd rw] = Some s1 /\
+    inflight s1 = del ri (inflight s) /\ waiting s1 = waiting s /\
+    (exists s2, gate_step s1 (Cancel rw) = Some s2 /\
+                inflight s2 = del ri (inflight s) /\ waiting s2 = del rw (waiting s)) /\
+    (exists s2, gate_step s1 (Enter rw) = Some s2 /\
+                inflight s2 = del ri (inflight s) ++ [rw] /\ waiting s2 = del rw (waiting s) /\
+                length (inflight s2) = length (inflight s)) /\
+    (forall o', gate_step s1 (Leave rw o') = None).
+Proof.
+  intros H Hw Hi. pose proof (reach_inv _ _ _ H) as I.
+  pose proof (i_cap _ _ _ I) as Hcap.
+  destruct (waiting_not_entered _ _ _ _ I Hw) as [Hs [Hne _]].
+  assert (Hn : 0 < n).
+  { destruct n; [|lia]. rewrite (i_disabled _ _ _ I eq_refl) in Hw; destruct Hw. }
+  assert (Hu : memr rw (used s) = true) by (apply memr_In; rewrite (i_used _ _ _ I); exact Hs).
+  assert (Hmi : memr ri (inflight s) = true) by (apply memr_In; exact Hi).
+  assert (Hmw : memr rw (waiting s) = true) by (apply memr_In; exact Hw).
+  assert (Hlen : S (length (del ri (inflight s))) = length (inflight s)).
+  { apply del_length_NoDup; [exact (inflight_NoDup _ _ _ H)|exact Hi]. }
+  pose proof (i_bound _ _ _ I Hn) as Hb.
+  assert (Hlt : (length (del ri (inflight s)) <? cap s) = true) by (apply Nat.ltb_lt; lia).
+  assert (Hnri : memr rw (del ri (inflight s)) = false).
+  { apply memr_false; rewrite del_In; intros [X _].
+    apply (inflight_entered _ _ _ _ I) in X; tauto. }
+  eexists. unfold run; simpl. repeat (progress (rewrite ?Hu, ?Hmi; simpl)).
+  split; [reflexivity|]. split; [reflexivity|]. simpl.
+  split; [reflexivity|]. split; [reflexivity|].
+  rewrite Hmw, Hlt, Hnri. unfold memr at 1; simpl; rewrite Nat.eqb_refl; simpl.
+  split; [eexists; split; [reflexivity|]; simpl; auto|].
+  split; [|reflexivity].
+  eexists; split; [reflexivity|]; simpl. split; [reflexivity|]. split; [reflexivity|].
+  rewrite app_length; simpl; lia.
 Qed.
 
 (* ------------------------------------------------------------------ C09_disabled_never_waits *)
@@ -472,7 +623,7 @@ Proof.
   - split; [apply inv_init|reflexivity].
   - intros evs s e s' _ [I E] Hs. split; [exact (inv_step _ _ _ _ _ I Hs)|].
     rewrite entered_snoc, started_snoc, E.
-    destruct e as [r|r|r o|r]; try reflexivity.
+    destruct e as [r b|r|r|r o|r]; try reflexivity.
     simpl in Hs. rewrite (i_disabled _ _ _ I eq_refl) in Hs. discriminate.
 Qed.
 
@@ -512,16 +663,17 @@ Qed.
 (* limit 2, five renders; 3 is cancelled while waiting, 1 panics, 4 fails in a
    template function, 5 is a missing template *)
 Definition nv_trace : list gate_event :=
-  [Start 1; Start 2; Start 3; Enter 2; Enter 1; Start 4; Cancel 3;
-   Leave 1 o_panic; Enter 4; Start 5; Leave 2 o_ok; Enter 5;
+  [Start 1 false; Start 2 false; Start 3 false; Enter 2; Enter 1; Start 4 false; CtxEnd 3; Cancel 3;
+   Leave 1 o_panic; Enter 4; Start 5 false; Leave 2 o_ok; Enter 5;
    Leave 4 o_func_error; Leave 5 o_not_found].
 
-Example nv_accepted : reach 2 nv_trace = Some (mk_gate 2 [] [] [5; 4; 3; 2; 1]).
+Example nv_accepted : reach 2 nv_trace = Some (mk_gate 2 [] [] [5; 4; 3; 2; 1] [3]).
 Proof. vm_compute. reflexivity. Qed.
 
 Example nv_midway :
-  reach 2 [Start 1; Start 2; Start 3; Enter 2; Enter 1; Start 4; Cancel 3; Leave 1 o_panic] =
-  Some (mk_gate 2 [2] [4] [4; 3; 2; 1]).
+  reach 2 [Start 1 false; Start 2 false; Start 3 false; Enter 2; Enter 1; Start 4 false;
+           CtxEnd 3; Cancel 3; Leave 1 o_panic] =
+  Some (mk_gate 2 [2] [4] [4; 3; 2; 1] [3]).
 Proof. vm_compute. reflexivity. Qed.
 
 Example nv_done : all_started_doneb nv_trace = true.
@@ -534,28 +686,68 @@ Example nv_refill :
   exists s, reach 2 (nv_trace ++ refill [6; 7]) = Some s /\ inflight s = [6; 7] /\ waiting s = [].
 Proof. eexists; vm_compute; repeat split; reflexivity. Qed.
 
+(* contexts that are over.  Limit 2: 1 is called with a dead context at a free
+   gate and gets the error; 2 is called likewise and enters (select chose the
+   send); 3 enters; 4 and 5 are called with a dead context at the full gate: 4
+   gets the error, 5 - still undecided - is waiting; the context of 6 ends while
+   2 hands back its slot, 6 takes it; 3 and 6 leave; then both slots are free *)
+Definition nv_ctx_trace : list gate_event :=
+  [Start 1 true; Cancel 1; Start 2 true; Enter 2; Start 3 false; Enter 3;
+   Start 4 true; Start 5 true; Cancel 4; Start 6 false; CtxEnd 6; Leave 2 o_ok; Enter 6;
+   Cancel 5; Leave 3 o_panic; Leave 6 o_ok].
+
+Example nv_ctx_accepted :
+  reach 2 nv_ctx_trace = Some (mk_gate 2 [] [] [6; 5; 4; 3; 2; 1] [6; 5; 4; 2; 1]).
+Proof. vm_compute. reflexivity. Qed.
+
+Example nv_ctx_refill :
+  exists s, reach 2 (nv_ctx_trace ++ refill [7; 8]) = Some s /\ inflight s = [7; 8].
+Proof. eexists; vm_compute; split; reflexivity. Qed.
+
+(* the hypotheses of gate_ended_start and gate_cancel_release_race are satisfiable *)
+Example nv_ended_start_hyps :
+  exists s, reach 2 [Start 1 false; Enter 1] = Some s /\ ~ In 2 (started [Start 1 false; Enter 1]).
+Proof. eexists; split; [vm_compute; reflexivity|]. simpl; intros [X|[]]; discriminate. Qed.
+
+Example nv_race_hyps :
+  exists s, reach 1 [Start 1 false; Enter 1; Start 2 false] = Some s /\
+            In 2 (waiting s) /\ In 1 (inflight s).
+Proof. eexists; split; [vm_compute; reflexivity|]. simpl; auto. Qed.
+
 (* rejected traces: a third render past a limit of 2; a Leave of a render that
    is not in flight; a Cancel of a render in flight; a reused identifier *)
-Example nv_reject_over : reach 2 [Start 1; Start 2; Start 3; Enter 1; Enter 2; Enter 3] = None.
+Example nv_reject_over :
+  reach 2 [Start 1 false; Start 2 false; Start 3 false; Enter 1; Enter 2; Enter 3] = None.
 Proof. vm_compute. reflexivity. Qed.
 
-Example nv_reject_leave : reach 2 [Start 1; Leave 1 o_ok] = None.
+Example nv_reject_leave : reach 2 [Start 1 false; Leave 1 o_ok] = None.
 Proof. vm_compute. reflexivity. Qed.
 
-Example nv_reject_cancel : reach 2 [Start 1; Enter 1; Cancel 1] = None.
+Example nv_reject_cancel : reach 2 [Start 1 true; Enter 1; Cancel 1] = None.
 Proof. vm_compute. reflexivity. Qed.
 
-Example nv_reject_reuse : reach 2 [Start 1; Enter 1; Leave 1 o_ok; Start 1] = None.
+Example nv_reject_reuse : reach 2 [Start 1 false; Enter 1; Leave 1 o_ok; Start 1 false] = None.
 Proof. vm_compute. reflexivity. Qed.
 
-(* limit disabled: nobody waits, whatever the number of renders *)
+(* a context error for a live context; a dead-context caller that got the error
+   AND went through the gate; a dead-context caller entering a full gate *)
+Example nv_reject_live_cancel : reach 2 [Start 1 false; Cancel 1] = None.
+Proof. vm_compute. reflexivity. Qed.
+
+Example nv_reject_error_and_slot : reach 2 [Start 1 true; Enter 1; Cancel 1] = None.
+Proof. vm_compute. reflexivity. Qed.
+
+Example nv_reject_dead_over : reach 1 [Start 1 false; Enter 1; Start 2 true; Enter 2] = None.
+Proof. vm_compute. reflexivity. Qed.
+
+(* limit disabled: nobody waits, whatever the number of renders and whatever their contexts *)
 Example nv_disabled :
-  reach 0 [Start 1; Start 2; Start 3; Leave 2 o_panic; Start 4] =
-  Some (mk_gate 0 [1; 3; 4] [] [4; 3; 2; 1]).
+  reach 0 [Start 1 false; Start 2 true; Start 3 false; Leave 2 o_panic; Start 4 false; CtxEnd 1] =
+  Some (mk_gate 0 [1; 3; 4] [] [4; 3; 2; 1] [1; 2]).
 Proof. vm_compute. reflexivity. Qed.
 
 (* the hypotheses of gate_progress are satisfiable *)
 Example nv_progress :
-  exists s, reach 2 [Start 1; Start 2; Start 3; Enter 1] = Some s /\
+  exists s, reach 2 [Start 1 false; Start 2 false; Start 3 false; Enter 1] = Some s /\
             waiting s <> [] /\ length (inflight s) < cap s.
 Proof. eexists; split; [vm_compute; reflexivity|]; simpl; split; [discriminate|lia]. Qed.
